@@ -12,15 +12,16 @@ TrMonPairs == Actors \X Actors
 TrMax == [a \in Actors |-> 1000]
 TrEnvOps == [a \in Actors |-> {"stop", "kill", "drain", "abort", "selfkill", "selfstop", "joinpg"}]
 
-VARIABLES l, dev, stray   \* stray: names momentarily held by a probe actor of the harness (obs.clash d=0)
-tvars == <<vars, l, dev, stray>>
+VARIABLES l, dev, stray,  \* stray: names momentarily held by a probe actor of the harness (obs.clash d=0)
+          kidop          \* per actor: "stop" / "drain" still to be sent to it by a running stop_children_and_wait / drain_children_and_wait
+tvars == <<vars, l, dev, stray, kidop>>
 Ev == Rec[l]
 X == Ev.x
 Adv == l' = l + 1
 Live == l <= N
 IsA(a) == Live /\ Ev.a = a /\ (IF Ev.a \in {"reset", "obs.end"} THEN TRUE ELSE Ev.x \in Actors)
 Same == UNCHANGED vars
-ND == UNCHANGED <<dev, stray>>
+ND == UNCHANGED <<dev, stray, kidop>>
 
 \* internal points: consumed in strict mode, skipped (and their actions taken silently) in lenient mode
 Internal == {"port.stop", "port.sup", "port.msg", "port.drain", "sig.handled", "guard.cleanup", "guard.done", "decode.dropped", "tl.start"}
@@ -38,7 +39,7 @@ CbEnter ==
         /\ ac[X].cur.ek = Ev.ek /\ ac[X].cur.about = Ev.about /\ ac[X].cur.hs = (Ev.hs = 1) /\ ac[X].cur.reason = Ev.reason
         \* C04 reads "kill: no state"; the code reports the state for kills landing in the loop
         /\ dev' = IF Ev.ek = "terminated" /\ Ev.reason = "killed" /\ Ev.hs = 1 THEN dev \cup {"KillCarriesState"} ELSE dev
-        /\ UNCHANGED stray
+        /\ UNCHANGED <<stray, kidop>>
 CbExit ==
   /\ IsA("obs.cb_exit") /\ Adv /\ ND
   /\ \/ Ev.k = "pre_start" /\ PreEnd(X, Ev.o)
@@ -76,10 +77,10 @@ EnvEv ==
                               ELSE ac[X].spawnRes = (IF Ev.d = 1 THEN "ok" ELSE "err")) /\ Same /\ Adv /\ ND
   \/ IsA("obs.join_begin") /\ Same /\ Adv /\ ND
   \* a second spawn under a live actor's name fails with ActorAlreadyRegistered and changes nothing
-  \/ /\ IsA("obs.clash") /\ Same /\ Adv /\ UNCHANGED dev
+  \/ /\ IsA("obs.clash") /\ Same /\ Adv /\ UNCHANGED <<dev, kidop>>
      /\ IF Ev.d = 1 THEN (Registered(X) \/ stray[X] > 0) /\ UNCHANGED stray
                     ELSE Ev.d = 0 /\ ~Registered(X) /\ stray' = [stray EXCEPT ![X] = @ + 1]
-  \/ IsA("obs.clash_done") /\ Same /\ Adv /\ UNCHANGED dev /\ stray' = [stray EXCEPT ![X] = @ - 1]
+  \/ IsA("obs.clash_done") /\ Same /\ Adv /\ UNCHANGED <<dev, kidop>> /\ stray' = [stray EXCEPT ![X] = @ - 1]
   \/ IsA("obs.join_ret") /\ ac[X].pc = "dead" /\ (Ev.r = "cancelled") = (ac[X].exitK = "abort") /\ Ev.r # "panic" /\ Same /\ Adv /\ ND
 
 LoopEv ==
@@ -117,11 +118,21 @@ End == /\ IsA("obs.end") /\ Adv /\ Same /\ ND
 
 Reset == /\ IsA("reset") /\ Adv
          /\ ac' = [a \in Actors |-> InitActor] /\ nsent' = [a \in Actors |-> 0] /\ ninj' = [a \in Actors |-> 0]
-         /\ dev' = {} /\ stray' = [a \in Actors |-> 0]
+         /\ dev' = {} /\ stray' = [a \in Actors |-> 0] /\ kidop' = [a \in Actors |-> "none"]
 
-TNext == Reset \/ End \/ CbEnter \/ CbExit \/ CbBody \/ EnvEv \/ LoopEv \/ SilentRefuse
+\* stop_children_and_wait / drain_children_and_wait: the harness logs, per child of the moment, the intent before the call
+\* and "waited" after it returned; the stop / drain itself is sent by an unlogged helper task some time in between
+KidIntent == IsA("obs.kid_intent") /\ Adv /\ Same /\ UNCHANGED <<dev, stray>> /\ Ev.op \in {"stop", "drain"}
+             /\ kidop' = [kidop EXCEPT ![X] = Ev.op]
+KidSilent == /\ Live /\ l' = l /\ UNCHANGED <<dev, stray>>
+             /\ \E c \in Actors : /\ kidop[c] # "none" /\ kidop' = [kidop EXCEPT ![c] = "none"]
+                                  /\ IF kidop[c] = "stop" THEN Stop(c, "r") ELSE Drain(c)
+\* the call returned: the child had been told, and it has fully stopped
+KidWaited == IsA("obs.kid_waited") /\ Adv /\ Same /\ ND /\ kidop[X] = "none" /\ ac[X].pc = "dead"
 
-TInit == Init /\ l = 1 /\ dev = {} /\ stray = [a \in Actors |-> 0] /\ TLCSet(42, 1)
+TNext == Reset \/ End \/ CbEnter \/ CbExit \/ CbBody \/ EnvEv \/ LoopEv \/ SilentRefuse \/ KidIntent \/ KidSilent \/ KidWaited
+
+TInit == Init /\ l = 1 /\ dev = {} /\ stray = [a \in Actors |-> 0] /\ kidop = [a \in Actors |-> "none"] /\ TLCSet(42, 1)
 TSpec == TInit /\ [][TNext]_tvars
 Progress == /\ TLCSet(42, IF l > TLCGet(42) THEN l ELSE TLCGet(42))
             \* EARLY=1 (lenient validation): one behaviour that explains the whole trace is enough, stop there
